@@ -10,6 +10,25 @@ Proof.
            end; try discriminate.
 Qed.
 
+(* the predicate depends on the loopback classifier only through its values *)
+Lemma forallb_pointwise {A} (f g : A -> bool) l : (forall x, f x = g x) -> forallb f l = forallb g l.
+Proof. intro H. induction l as [|a l IH]; cbn; [reflexivity|]. rewrite H, IH. reflexivity. Qed.
+Lemma existsb_pointwise {A} (f g : A -> bool) l : (forall x, f x = g x) -> existsb f l = existsb g l.
+Proof. intro H. induction l as [|a l IH]; cbn; [reflexivity|]. rewrite H, IH. reflexivity. Qed.
+
+Lemma matches_ext glob l1 l2 c u : (forall v, l1 v = l2 v) -> matches glob l1 c u = matches glob l2 c u.
+Proof.
+  intro H. unfold matches, loopback_variant, loop_match. rewrite H.
+  destruct (l2 u) as [pq|]; [|reflexivity].
+  do 2 f_equal. apply existsb_pointwise. intro r. rewrite H. reflexivity.
+Qed.
+
+Lemma registeredb_ext glob l1 l2 c u rt :
+  (forall v, l1 v = l2 v) -> registeredb glob l1 c u rt = registeredb glob l2 c u rt.
+Proof.
+  intro H. unfold registeredb, scheme_ok, is_loop. rewrite (matches_ext glob l1 l2 c u H), H. reflexivity.
+Qed.
+
 Section Pred.
   Variable glob : string -> string -> gres.
   Variable loop : string -> option (string * string).
@@ -458,6 +477,18 @@ Section Hist.
   Qed.
 
   (* ---- the answers are safe ---- *)
+  (* the library's loopback classification is the ground truth (guard `wf` of the case) *)
+  Hypothesis Hag : forall u, u_truth (info u) = u_loop (info u).
+
+  Lemma registered_agree c u rt : registered c u rt = registeredb glob loopf c u rt.
+  Proof. unfold C03_spec.registered. apply registeredb_ext, Hag. Qed.
+
+  Lemma must_page_agree q : must_page glob info cs q = must_page_with glob cs loopf q.
+  Proof.
+    unfold must_page, must_page_with. f_equal. destruct (find_client cs (q_client q)); [|reflexivity].
+    apply forallb_pointwise. intro u. rewrite (matches_ext glob _ loopf c u Hag). reflexivity.
+  Qed.
+
   Lemma target_ok_from cid c cands u rt x :
     find_client cs cid = Some c -> validate c u rt = VOk -> In u cands -> from_uri u x ->
     target_ok glob info cs cid cands rt x = true.
@@ -465,7 +496,7 @@ Section Hist.
     intros Hc Hv Hi [Hp|[fr [code [cq [cf [Hk ->]]]]]].
     - destruct x; cbn in Hp; try discriminate. reflexivity.
     - cbn. rewrite Hc. apply existsb_exists. exists u. split; [assumption|].
-      rewrite Hk. unfold C03_spec.registered.
+      rewrite Hk, registered_agree.
       rewrite (validate_ok_registered glob loopf c u rt Hv). cbn. apply String.eqb_refl.
   Qed.
 
@@ -479,7 +510,7 @@ Section Hist.
     - reflexivity.
     - reflexivity.
     - cbn. rewrite Hc. apply existsb_exists. exists (s_uri s). split; [assumption|].
-      rewrite Ht. unfold C03_spec.registered.
+      rewrite Ht, registered_agree.
       rewrite (validate_ok_registered glob loopf c _ _ Hv). cbn. apply String.eqb_refl.
   Qed.
 
@@ -489,19 +520,19 @@ Section Hist.
   Qed.
 
   Lemma must_page_no_validate q q' c :
-    must_page glob info cs q = true -> effective q q' ->
+    must_page_with glob cs loopf q = true -> effective q q' ->
     find_client cs (q_client q') = Some c ->
     match q_fault q' with AF_GetClient _ => false | _ => true end = true ->
     validate c (q_uri q') (q_rt q') = VOk -> False.
   Proof.
-    unfold must_page. intros Hm [Hcl [Hrt [Hfa Hin]]] Hc Hnf Hv.
+    unfold must_page_with. intros Hm [Hcl [Hrt [Hfa Hin]]] Hc Hnf Hv.
     rewrite Hcl in Hc. rewrite Hfa in Hnf. rewrite Hc in Hm.
     replace (match q_fault q with AF_GetClient _ => true | _ => false end) with false in Hm
       by (destruct (q_fault q); cbn in *; congruence).
     cbn [orb] in Hm. rewrite forallb_forall in Hm. specialize (Hm _ Hin).
     pose proof (validate_ok_registered glob loopf c _ _ Hv) as Hr.
     unfold registeredb in Hr. apply andb_true_iff in Hr as [Hr _]. apply andb_true_iff in Hr as [Hu Hmm].
-    unfold matching in Hm. rewrite Hmm in Hm. cbn in Hm. rewrite orb_false_r in Hm.
+    rewrite Hmm in Hm. cbn in Hm. rewrite orb_false_r in Hm.
     rewrite Hm in Hu. discriminate.
   Qed.
 
@@ -522,16 +553,17 @@ Section Hist.
     cbn [run]. destruct (step st o) as [st' x] eqn:Es.
     pose proof (step_valid st o Hst) as Hst'. rewrite Es in Hst'. cbn [fst] in Hst'.
     destruct o as [r q w|k|r k f w]; cbn [spec_hist].
-    - pose proof (step_authorize_shape r st q w) as S. rewrite Es in S. unfold authorize_shape, core_ok in S. cbn [fst snd] in S.
+    - rewrite must_page_agree.
+      pose proof (step_authorize_shape r st q w) as S. rewrite Es in S. unfold authorize_shape, core_ok in S. cbn [fst snd] in S.
       destruct S as [[-> Hp]|[q' [He [c [Hc [Hnf [Hv [[-> [Hf Hl]]|[-> ->]]]]]]]]].
       + rewrite Hp, (page_target_ok _ _ _ _ Hp), (page_login_ok _ _ Hp), (page_not_login _ Hp).
-        destruct (must_page glob info cs q); cbn; apply IH; assumption.
-      + destruct (must_page glob info cs q) eqn:Em; [exfalso; eapply must_page_no_validate; eauto|].
+        destruct (must_page_with glob cs loopf q); cbn; apply IH; assumption.
+      + destruct (must_page_with glob cs loopf q) eqn:Em; [exfalso; eapply must_page_no_validate; eauto|].
         destruct He as [Hcl [Hrt [Hfa Hin]]]. rewrite Hcl in Hc. rewrite Hrt in Hv.
         rewrite (target_ok_from _ c _ _ _ _ Hc Hv Hin Hf), Hl. cbn.
         replace (login_ok cs q x) with true by (destruct x; cbn in *; congruence).
         cbn. apply IH; assumption.
-      + destruct (must_page glob info cs q) eqn:Em; [exfalso; eapply must_page_no_validate; eauto|].
+      + destruct (must_page_with glob cs loopf q) eqn:Em; [exfalso; eapply must_page_no_validate; eauto|].
         destruct He as [Hcl [Hrt [Hfa Hin]]]. rewrite Hcl in Hc.
         cbn. rewrite Hc, String.eqb_refl. cbn.
         apply IH; [assumption|]. apply Forall2_app; [assumption|].
@@ -623,13 +655,13 @@ Section Hist.
     exists status code, authorize r st q = (st, OPage status code).
   Proof.
     intro H.
-    assert (Hm : must_page glob info cs q = true).
-    { unfold must_page. destruct H as [[k Hk]|[Hn|[c [Hf Hc]]]].
+    assert (Hm : must_page_with glob cs loopf q = true).
+    { unfold must_page_with. destruct H as [[k Hk]|[Hn|[c [Hf Hc]]]].
       - rewrite Hk. reflexivity.
       - rewrite Hn. apply orb_true_r.
       - rewrite Hf. apply orb_true_iff. right. apply forallb_forall. intros u Hu.
         destruct (Hc u Hu) as [->|Hn]; [reflexivity|].
-        unfold matching. rewrite Hn. apply orb_true_r. }
+        rewrite Hn. apply orb_true_r. }
     pose proof (authorize_has_shape r st q) as S. unfold authorize_shape, core_ok in S.
     destruct (authorize r st q) as [st' x]. cbn [fst snd] in S.
     destruct S as [[-> Hp]|[q' [He [c [Hc [Hnf [Hv _]]]]]]].
@@ -642,13 +674,46 @@ Theorem run_safe_from_empty glob info ro nf cs ops :
   Forall (safe_out glob info cs) (run glob info ro nf cs [] ops).
 Proof. apply run_safe. constructor. Qed.
 
-Theorem spec_model : forall i, spec i (model i) = true.
+Lemma opq_eqb_eq a b : opq_eqb a b = true -> a = b.
 Proof.
-  intros [c u rt t|ro nf cs t ops]; cbn [model spec].
-  - destruct (validate_redirect _ _ c u rt) eqn:E; auto.
-    unfold registered. apply validate_ok_registered, E.
-  - apply (spec_hist_run (glob_of (t_glob t)) (info_of (t_uri t)) ro nf cs ops [] []); constructor.
+  destruct a as [[p q]|], b as [[p' q']|]; cbn; try discriminate; auto.
+  unfold pq_eqb. cbn. intro H. apply andb_true_iff in H as [H1 H2].
+  apply String.eqb_eq in H1, H2. subst. reflexivity.
 Qed.
+
+Lemma loop_agree_info t : loop_agree t = true -> forall u, u_truth (info_of t u) = u_loop (info_of t u).
+Proof.
+  intros H u. induction t as [|[u' i] t IH]; cbn; [reflexivity|].
+  cbn in H. apply andb_true_iff in H as [Hi Ht].
+  destruct (String.eqb u u'); [apply opq_eqb_eq, Hi | apply IH, Ht].
+Qed.
+
+Theorem spec_model : forall i, wf i = true -> spec i (model i) = true.
+Proof.
+  intros [c u rt t|ro nf cs t ops] Hwf; cbn [model spec]; cbn [wf] in Hwf;
+    pose proof (loop_agree_info _ Hwf) as Hag.
+  - destruct (validate_redirect _ _ c u rt) eqn:E; auto.
+    unfold registered. rewrite (registeredb_ext _ _ (fun u => u_loop (info_of (t_uri t) u)) c u rt Hag).
+    apply validate_ok_registered, E.
+  - apply (spec_hist_run (glob_of (t_glob t)) (info_of (t_uri t)) ro nf cs Hag ops [] []); constructor.
+Qed.
+
+(* the guard is needed and the predicate sees through a wrong classifier: a library that takes the host
+   evil-localhost for a loopback address lets http://evil-localhost/cb through for a native client that
+   registered http://localhost/cb - the model follows the library (VOk), the predicate says no *)
+Definition ex_native : client :=
+  {| c_id := "nat"; c_app := Native; c_dev := false; c_rtypes := ["code"];
+     c_redirects := ["http://localhost/cb"]; c_globs := None; c_login := "/login?id=" |}.
+Definition ex_wrong_tables : tables :=
+  {| t_glob := [];
+     t_uri := [("http://localhost/cb", {| u_loop := Some ("/cb", ""); u_canon := Some ("http://localhost/cb", "http://localhost/cb");
+                                           u_form := Some "http://localhost/cb"; u_truth := Some ("/cb", "") |});
+               ("http://evil-localhost/cb", {| u_loop := Some ("/cb", ""); u_canon := Some ("http://evil-localhost/cb", "http://evil-localhost/cb");
+                                                u_form := Some "http://evil-localhost/cb"; u_truth := None |})] |}.
+Example C03_wrong_loopback_flagged :
+  let i := IValidate ex_native "http://evil-localhost/cb" "code" ex_wrong_tables in
+  wf i = false /\ model i = OValidate VOk /\ spec i (model i) = false.
+Proof. vm_compute. auto. Qed.
 
 (* ---- non-vacuity: a concrete flow that ends in a success redirect, and one that is refused ---- *)
 Definition ex_client : client :=
@@ -658,7 +723,7 @@ Definition ex_client : client :=
 Definition ex_glob (g u : string) : gres :=
   if String.eqb u "https://sub.example.com/cb" then GMatch else GNoMatch.
 Definition ex_info (u : string) : uinfo :=
-  {| u_loop := None; u_canon := Some (u, u); u_form := Some u |}.
+  {| u_loop := None; u_canon := Some (u, u); u_form := Some u; u_truth := None |}.
 Definition ex_req (u : string) : areq :=
   {| q_client := "web"; q_uri := u; q_rt := "code"; q_mode := ""; q_malformed := false; q_reqobj := RP_None;
      q_prompt := P_Ok; q_noscope := false; q_hint_bad := false; q_fault := AF_None |}.
